@@ -23,6 +23,15 @@ def check(prop, tier, only):
                      name=f"bucket-selection-after-move/identity maxns 12 vs 20[{cfg}]", moves=True)
         j["own"] = ["M-inside", "M-freelist", "M-disjoint", "M-maxima"]
         ex.append(j)
+    # "the bucket chosen for a size has nodes at least that large" as a physical fact: the request sweep of C02 over the three
+    # collection kinds with identity buckets (every size 1..max at the end of a chunk / block): the node handed out for a size must
+    # lie inside upstream memory and must not overlap its neighbours for its full size
+    import grids
+    for j in grids.jobs_sweep(tier):
+        if "/coll_" in j["name"] and "_id" in j["name"]:
+            j = dict(j)
+            j["only_tags"] = [t + "@" + f for t in ("outside-upstream", "prefill-corrupted", "overlaps-prefill", "not-writable") for f in ("coll-node", "coll-array")]
+            jobs.append(j)
     return checks.run_explore_check(
         prop, tier, ex, only=only, enum_jobs=jobs,
         note="explorer part: two memory_pool_collections with different max_node_size, all histories of requests of every bucket size with move construction / "
